@@ -32,34 +32,62 @@ fn layer_ud_frame() -> Vec<u8> {
     bytes
 }
 
-/// a frame (layer + user data) cut at ANY offset before its end is an error value
-#[kani::proof]
-#[kani::unwind(9)]
-#[kani::stub(alloc::fmt::format, crate::vklib::empty_format)]
-#[kani::stub(std::hash::RandomState::new, crate::vklib::fixed_random_state)]
-fn c13_q_frame_cut_anywhere() {
-    let bytes = layer_ud_frame();
-    let cut: usize = kani::any();
-    kani::assume(cut < bytes.len());
-    let mut reader = AseReader::with(LimitReader { data: &bytes[..], pos: 0, limit: cut, fault: None });
-    let mut info = ParseInfo::new(1, 100);
-    let r = parse_frame(&mut reader, 0, PixelFormat::Rgba, &mut info);
-    assert!(r.is_err(), "a frame that ends before its declared end does not parse");
-    kani::cover!(cut == 0);
-    kani::cover!(cut == 15);
-    kani::cover!(cut == 40);
-    kani::cover!(cut + 1 == bytes.len());
-    core::mem::forget(r);
-    core::mem::forget(info);
-    core::mem::forget(bytes);
+/// a frame (layer + user data, symbolic contents) cut at the given offsets is an error value. The cut offsets are
+/// concrete per harness (a symbolic cut makes every later read position symbolic and the query runs out of
+/// memory): together the three quick harnesses cover every read boundary of the frame and one offset inside each read.
+fn frame_cut_at<const N: usize>(cuts: [usize; N]) {
+    for k in 0..N {
+        let bytes = layer_ud_frame();
+        let cut = cuts[k];
+        assert!(cut < bytes.len());
+        // a file cut at `cut` IS the prefix: the in-memory reader over the first `cut` bytes
+        let mut reader = AseReader::with(&bytes[..cut]);
+        let mut info = ParseInfo::new(1, 100);
+        let r = parse_frame(&mut reader, 0, PixelFormat::Rgba, &mut info);
+        assert!(r.is_err(), "a frame that ends before its declared end does not parse");
+        core::mem::forget(r);
+        core::mem::forget(info);
+        core::mem::forget(bytes);
+    }
+    kani::cover!(true);
 }
+macro_rules! cut_harness {
+    ($name:ident, $c:expr) => {
+        #[kani::proof]
+        #[kani::unwind(9)]
+        #[kani::stub(alloc::fmt::format, crate::vklib::empty_format)]
+        #[kani::stub(std::hash::RandomState::new, crate::vklib::fixed_random_state)]
+        fn $name() {
+            frame_cut_at($c);
+        }
+    };
+}
+// frame header: 0..4 bytes, 4..6 magic, 6..8 old count, 8..10 duration, 10..12, 12..16 new count
+cut_harness!(c13_q_frame_cut_in_frame_header_a, [3]);
+cut_harness!(c13_t_frame_cut_at_0, [0]);
+cut_harness!(c13_t_frame_cut_in_frame_header_b, [15]);
+cut_harness!(c13_t_frame_cut_in_magic, [5]);
+// right after the magic / after the old count: nothing that follows may be taken as zero
+cut_harness!(c13_q_frame_cut_in_frame_header_c, [6]);
+cut_harness!(c13_t_frame_cut_after_old_count, [10]);
+// layer chunk: 16..20 size, 20..22 type, 22..41 payload
+cut_harness!(c13_q_frame_cut_in_first_chunk_a, [21]);
+cut_harness!(c13_t_frame_cut_at_16, [16]);
+cut_harness!(c13_q_frame_cut_in_first_chunk_b, [22, 40]);
+// user data chunk: 41..45 size, 45..47 type, 47..55 payload
+cut_harness!(c13_q_frame_cut_in_second_chunk_a, [46]);
+cut_harness!(c13_t_frame_cut_at_41, [41]);
+cut_harness!(c13_q_frame_cut_in_second_chunk_b, [47, 54]);
+cut_harness!(c13_t_frame_cut_more_offsets_a, [4, 9]);
+cut_harness!(c13_t_frame_cut_more_offsets_b, [13, 30]);
+cut_harness!(c13_t_frame_cut_more_offsets_c, [43, 52]);
 
 /// whole file = header + one empty frame, cut anywhere: error value; uncut: loads
 #[kani::proof]
 #[kani::unwind(8)]
 #[kani::stub(alloc::fmt::format, crate::vklib::empty_format)]
 #[kani::stub(std::hash::RandomState::new, crate::vklib::fixed_random_state)]
-fn c13_q_file_cut_anywhere() {
+fn c13_t_file_cut_anywhere() {
     let mut f: [u8; 144] = kani::any();
     f[4] = 0xE0;
     f[5] = 0xA5;
@@ -92,12 +120,70 @@ fn c13_q_file_cut_anywhere() {
     core::mem::forget(r);
 }
 
+/// a frame whose LAST chunk is an ignorable one (cel extra, symbolic payload), cut inside that payload: still an error
+#[kani::proof]
+#[kani::unwind(9)]
+#[kani::stub(alloc::fmt::format, crate::vklib::empty_format)]
+#[kani::stub(std::hash::RandomState::new, crate::vklib::fixed_random_state)]
+fn c13_q_frame_cut_in_trailing_ignorable_chunk() {
+    const KINDS: [u16; 2] = [0x2006, 0x2017];
+    for k in 0..2 {
+        let mut body: Vec<u8> = Vec::with_capacity(32);
+        put32(&mut body, 8 + 6);
+        put16(&mut body, KINDS[k]);
+        put_any(&mut body, 8);
+        let mut bytes: Vec<u8> = Vec::with_capacity(48);
+        put32(&mut bytes, 16 + body.len() as u32);
+        put16(&mut bytes, 0xF1FA);
+        put16(&mut bytes, 1);
+        put_any(&mut bytes, 2);
+        put16(&mut bytes, 0);
+        put32(&mut bytes, 0);
+        bytes.extend_from_slice(&body);
+        let cut = [25usize, 29][k];
+        let mut reader = AseReader::with(&bytes[..cut]);
+        let mut info = ParseInfo::new(1, 100);
+        let r = parse_frame(&mut reader, 0, PixelFormat::Rgba, &mut info);
+        assert!(r.is_err(), "a frame cut inside an ignorable chunk does not parse");
+        core::mem::forget(r);
+        core::mem::forget(info);
+        core::mem::forget(bytes);
+        core::mem::forget(body);
+    }
+    kani::cover!(true);
+}
+
+/// the 128-byte header (symbolic contents) cut at each field boundary of its first 44 bytes, inside the reserved tail
+/// and one byte before its end: error value (frame count 0 keeps the query at the header); uncut: loads
+#[kani::proof]
+#[kani::unwind(8)]
+#[kani::stub(alloc::fmt::format, crate::vklib::empty_format)]
+#[kani::stub(std::hash::RandomState::new, crate::vklib::fixed_random_state)]
+fn c13_q_header_cut_at_field_boundaries() {
+    const CUTS: [usize; 4] = [3, 12, 43, 127];
+    for k in 0..4 {
+        let mut f: [u8; 128] = kani::any();
+        f[4] = 0xE0;
+        f[5] = 0xA5;
+        f[6] = 0;
+        f[7] = 0;
+        f[12] = 32;
+        f[13] = 0;
+        f[34] = 1;
+        f[35] = 1;
+        let r = read_aseprite(&f[..CUTS[k]]);
+        assert!(r.is_err(), "a cut header does not load");
+        core::mem::forget(r);
+    }
+    kani::cover!(true);
+}
+
 /// the header declares two frames, the file holds one: error value (never a one-frame sprite)
 #[kani::proof]
 #[kani::unwind(8)]
 #[kani::stub(alloc::fmt::format, crate::vklib::empty_format)]
 #[kani::stub(std::hash::RandomState::new, crate::vklib::fixed_random_state)]
-fn c13_q_missing_last_frame() {
+fn c13_t_missing_last_frame() {
     let mut f: [u8; 144] = kani::any();
     f[4] = 0xE0;
     f[5] = 0xA5;
@@ -149,26 +235,3 @@ fn c14_t_frame_one_byte_at_a_time() {
     core::mem::forget(bytes);
 }
 
-/// C14 at frame level: a hard I/O error at any offset inside a frame surfaces as the IoError variant with that kind
-#[kani::proof]
-#[kani::unwind(9)]
-#[kani::stub(alloc::fmt::format, crate::vklib::empty_format)]
-#[kani::stub(std::hash::RandomState::new, crate::vklib::fixed_random_state)]
-fn c14_q_frame_io_error_anywhere() {
-    let bytes = layer_ud_frame();
-    let at: usize = kani::any();
-    kani::assume(at < bytes.len());
-    let kind = any_error_kind();
-    let mut reader = AseReader::with(LimitReader { data: &bytes[..], pos: 0, limit: at, fault: Some(kind) });
-    let mut info = ParseInfo::new(1, 100);
-    let r = parse_frame(&mut reader, 0, PixelFormat::Rgba, &mut info);
-    match &r {
-        Err(AsepriteParseError::IoError(e)) => assert!(e.kind() == kind, "the reader's error is returned, with its kind"),
-        _ => assert!(false, "an I/O error before the frame is complete is returned as IoError, never a sprite"),
-    }
-    kani::cover!(at == 0);
-    kani::cover!(at == 30);
-    core::mem::forget(r);
-    core::mem::forget(info);
-    core::mem::forget(bytes);
-}
